@@ -502,7 +502,7 @@ def fs_backslice(ctx, body, starts, cut=()):
                 s.consts.add(e[1])
                 mm = re.search(r'::promoted\[(\d+)\]$', e[1])
                 if mm:
-                    pn = e[1] if e[1] in S.F.bodies else '%s::promoted[%s]' % (body.name.replace('#eager', ''), mm.group(1))
+                    pn = e[1] if e[1] in S.F.bodies else '%s::promoted[%s]' % (body.name.split('#')[0], mm.group(1))
                     s.merge_summary(S.whole_body(pn, S.depth - 1))
                 if e[2]:
                     s.fnconsts.add(e[2]); S._merge_callee(s, e[2], S.depth)
@@ -754,6 +754,56 @@ def eagerise(ctx, body):
     return nb
 
 
+def inline_closure_calls(ctx, body):
+    """a local closure called directly (`let mut step = |i, c| {..}; step(a, b);`, any number of times) is replaced by its
+    body at each call, captured variables substituted (the normal form only opens closures handed to iterator adaptors).
+    Loop bodies moved into a local closure, peeled iterations calling it once more, .. then look like straight code."""
+    from .. import normalize as NZ
+    from ..facts import Body
+    N = NZ.Normalizer(ctx.F, None, True)
+    rw = NZ.Rewriter(body.d); rw.promoted_of = N._promoted_of
+    done_any = False
+    for bi in range(len(rw.blocks)):
+        b = rw.blocks[bi]; t = b['term']
+        if b['cleanup'] or t['k'] != 'call' or t.get('synthetic') or t['t'] < 0 or len(t['args']) != 2: continue
+        cb = ctx.F.bodies.get(t.get('rp') or t.get('fp') or '')
+        if cb is None or cb.kind != 'closure': continue
+        # the closure value behind the environment argument
+        a0 = t['args'][0]
+        if a0['k'] not in ('copy', 'move'): continue
+        l = a0['pl']['l']; caps = None
+        for _ in range(8):
+            d = rw.single_def(l)
+            if d is None or d[0] != 'stmt': break
+            rv = d[2]['rv']
+            if rv['k'] == 'ref' and rv['pl']['p'] in ([], ['*']): l = rv['pl']['l']; continue
+            if rv['k'] == 'use' and rv['ops'][0]['k'] in ('copy', 'move') and not rv['ops'][0]['pl']['p']: l = rv['ops'][0]['pl']['l']; continue
+            if rv['k'] == 'agg' and rv['adt'] == 'closure:' + cb.name: caps = rv['ops']
+            break
+        if caps is None: continue
+        cd = N.body(cb.name)
+        # the argument tuple, spread over the closure's parameters
+        a1 = t['args'][1]; n = cd['argc'] - 1
+        d1 = rw.single_def(a1['pl']['l']) if a1['k'] in ('copy', 'move') and not a1['pl']['p'] else None
+        if d1 is not None and d1[0] == 'stmt' and d1[2]['rv']['k'] == 'agg' and d1[2]['rv']['adt'] == 'tuple' and len(d1[2]['rv']['ops']) == n:
+            ops = list(d1[2]['rv']['ops'])
+        elif a1['k'] in ('copy', 'move'):
+            ops = [{'k': 'copy', 'pl': {'l': a1['pl']['l'], 'p': list(a1['pl']['p']) + [{'f': str(k), 'of': 'tuple'}]}} for k in range(n)]
+        else: continue
+        entry = rw.splice(cd, [NZ._const('()', 'env')] + ops, t['dst'], t['t'], t.get('span'), captures=caps)
+        rw.goto(bi, entry)
+        done_any = True
+    if not done_any: return body
+    d = dict(rw.d); d['fn'] = body.name + '#eager'; d['parent'] = body.parent
+    nb = Body(d); nb.facts = ctx.F
+    return nb
+
+
+def open_up(ctx, body):
+    """the body with directly called local closures inlined and lazily mapped iterators handed to draining consumers made explicit"""
+    return eagerise(ctx, inline_closure_calls(ctx, body))
+
+
 def is_mul(c):
     return (c.trait or '').endswith('ops::Mul') and c.item == 'mul' and len(c.args) == 2
 
@@ -785,7 +835,7 @@ def check_method(ctx, name, uniform):
     fn = body0.name
     # ---- coverage of the input message
     cover(ctx, 'C09.cover/' + name, body0, INST, exempt=('parameters',))
-    body = eagerise(ctx, body0)
+    body = open_up(ctx, body0)
     results = result_structs(body, 'v1::ParametricInstance')
     if not results:
         ctx.bad('C09.carry/%s/aggregate' % name, 'ANCHOR', fn, 'no Ok-exit returns a v1::ParametricInstance value that can be traced'); return
@@ -818,6 +868,24 @@ def check_method(ctx, name, uniform):
             sq = square_sites(ctx, body, so)
             ctx.check(bool(sq), 'C09.objective/%s/square' % name, 'T-CARRY', fn,
                       'objective contains no product g*g of a constraint function with itself', body.site(), square_sites=sq)
+            # the squares that are summed are those of the constraints that are ACTIVE in the input, each of them, computed by
+            # the crate's own `Function * Function`: every product g*g sits in a loop that walks self.constraints itself
+            # (not e.g. a filter over the removed list), multiplies the function of that loop's current item, and is
+            # passed on every path through the iteration (no filter, no second hand-written way to square next to it)
+            msites = [c for c in so.call_objs if is_mul(c) and all(from_constraint_function(ctx.S.slice_operand(body, a)) for a in c.args)]
+            probs = []
+            if not msites: probs.append('the products g*g are not in this function body (a pipeline the normal form does not open)')
+            by_loop = {}
+            for c in msites:
+                L = innermost(loops, c.bb)
+                if L is None or not L.over_constraints or not all(is_constraints_leaf(x) or x[0] == 'vec' for x in L.leaves):
+                    probs.append('g*g at %s is not computed in a loop over self.constraints itself' % body.site(c.bb)); continue
+                if not all(L.item in ctx.S.slice_operand(body, a).locals for a in c.args):
+                    probs.append('g*g at %s does not square the function of the loop\'s current constraint' % body.site(c.bb)); continue
+                by_loop.setdefault(id(L), (L, []))[1].append(c.bb)
+            if msites and not probs and not any(T.must_pass(body, L.some_bb, {L.header}, set(bbs)) for L, bbs in by_loop.values()):
+                probs.append('a path through the loop over self.constraints does not pass the product g*g (filtered, or squared in another way)')
+            ctx.check(not probs, 'C09.objective/%s/square-of-each-active' % name, 'T-LOOPMUST', fn, '; '.join(probs), body.site())
             if not uniform:
                 # weight_c multiplies g_c: the parameter and the function belong to the same constraint
                 for c, a in wsites:
@@ -908,5 +976,5 @@ def check(ctx):
     ctx.floor('C09.loop', 8)
     ctx.floor('C09.pair', 2)
     ctx.floor('C09.parameters', 7)
-    ctx.floor('C09.objective', 4)
+    ctx.floor('C09.objective', 6)
     ctx.floor('C09.tags', 3)
